@@ -72,6 +72,12 @@ def check(case, ctx):
         # a (near-)cusp is accurate to ~1e-5 (C06 allows 5e-3 there, and records KF03), and length(0, t) then jumps by that
         # much as t crosses the cusp, so no parameter can invert it more finely
         from vp.props import c06
+        from svgpathtools import Arc
+        for sg in (curve if kind == 'path' else [curve]):
+            if isinstance(sg, Arc) and max(sg.radius.real, sg.radius.imag) >= 100 * min(sg.radius.real, sg.radius.imag):
+                # the speed along a very eccentric arc varies by the eccentricity: the same (near-)singular class
+                tol = max(tol, 1e-4 * L)
+                ctx.count('curve_with_near_singular_speed')
         for sp in specs:
             if sp[0] in 'QC':
                 cp = [gen.C(p) for p in sp[1:]]
